@@ -836,6 +836,12 @@ class C12(ServerProp):
             for sq in ["d:c:8:1+i:ack", "u:up1:8:2:gen:30:1+i:data", "d:c:8:1+i:err+i:ack", "d:missing:8:1+i:oack"]:
                 lines.append("multi %s %s srv/c=gen:16:3,srv/big=gen:3000:5 %s %s d:big:512:1" % (self.root(i), flags, rng.choice(["0", "01", "0011"]), sq))
                 i += 1
+        # directed: the largest block sizes (a DATA datagram of 65468 bytes) in both port modes - through the listener's channel in single-port
+        # mode - downloads and uploads side by side
+        for flags in ["-", "s", "s1"]:
+            for bsz in (65464, 32768, 16384):
+                lines.append("multi %s %s srv/huge=gen:140000:5 %s d:huge:%d:1 u:up1:%d:2:gen:%d:9" % (self.root(i), flags, rng.choice(["01", "0011", "10"]), bsz, bsz, 2 * bsz + 17))
+                i += 1
         # directed: one endpoint performs two transfers, one after the other, from the same port (a client need not change its port)
         seqs = ["d:c:8:1+d:big:512:1", "d:big:512:2+u:up1:512:1:gen:700:3", "u:up1:8:2:gen:30:1+d:c:8:1", "u:up1:512:1:gen:1500:4+u:up2:512:1:gen:600:5",
                 "d:missing:512:1+d:c:8:1", "d:c:8:1+d:c:8:1"]
